@@ -151,6 +151,7 @@ func VerifH_Handle_Chain() {
 		verifAssert(len(pkts) >= 1, "HANDLE.request_reissued_on_given_client")
 		for pi, p := range pkts {
 			verifAssert(p.ok, "HANDLE.reissued_packet_wellformed")
+			verifAssert(refFlagsOK(p), "C05.reissued_packet_reserved_flags")
 			switch kind {
 			case c11Pub1, c11Pub2:
 				if p.typ == 6 {
